@@ -105,6 +105,10 @@ def _cases(draw):
         c.get("alias", {}).pop("form_id", None)
     if form.get("settings") and P(0.1):
         form["settings_blank_rows"] = g.integer(1, 2)
+    if "stem" in c and "csv_spacer" not in c and P(0.3):
+        c["md_separator"] = g.pick(["spaced", "plain", "aligned", "left"])
+        if P(0.6):
+            c["md_separator_only"] = "settings"
     if P(0.3):
         form.setdefault("args", {})["form_name"] = uniq("argname")
     if not form["settings"]:
@@ -125,6 +129,22 @@ def run_form_of(case):
         form["settings"] = {("id_string" if k == "form_id" else k): v for k, v in form["settings"].items()}
         form["settings_header_extra"] = ["form_id"]
     return form
+
+
+def with_separators(md, style, only=None):
+    """Markdown tables usually have a separator row under the header: '|---|---|', '| | --- | --- |', '| |:---|:--:|'"""
+    if not style:
+        return md
+    out = []
+    lines = md.split("\n")
+    for i, line in enumerate(lines):
+        out.append(line)
+        # the header row follows the sheet-name row
+        if i > 0 and lines[i - 1].count("|") == 2 and line.startswith("| |") and (only is None or lines[i - 1].strip("| ").lower() == only):
+            n = line.count("|") - 2
+            cell = {"spaced": " --- ", "plain": "---", "aligned": ":---:", "left": ":---"}[style]
+            out.append("| |" + "|".join(cell for _ in range(n)) + "|")
+    return "\n".join(out)
 
 
 def use_md(form):
@@ -165,7 +185,7 @@ def run(case):
             elif use_md(form):
                 path = os.path.join(d, case["stem"] + _suffix(case, ".md"))
                 with open(path, "w", encoding="utf-8") as f:
-                    f.write(render.to_md(form))
+                    f.write(with_separators(render.to_md(form), case.get("md_separator"), only=case.get("md_separator_only")))
             else:
                 path = os.path.join(d, case["stem"] + _suffix(case, ".xlsx"))
                 with open(path, "wb") as f:
